@@ -87,12 +87,17 @@ pub fn err_info(e: &EncodeError) -> ErrInfo {
     }
 }
 
-fn stream_bytes(stream: &Stream) -> Vec<u8> {
+/// Bytes of `Stream::write` into a `ByteSink`; a library that fails to serialise its own stream yields an
+/// error result (compared like any other result), not a harness failure.
+fn stream_bytes(stream: &Stream) -> Result<Vec<u8>, ErrInfo> {
     let mut sink = ByteSink::new();
-    stream
-        .write(&mut sink)
-        .unwrap_or_else(|e| panic!("HARNESS: writing an encoded stream failed: {e:?}"));
-    sink.into_inner()
+    match stream.write(&mut sink) {
+        Ok(()) => Ok(sink.into_inner()),
+        Err(e) => Err(ErrInfo {
+            kind: "Write".into(),
+            text: format!("{e}"),
+        }),
+    }
 }
 
 fn framewise(w: &Workload, src: &mut SimSource) -> Result<Stream, EncodeError> {
@@ -185,7 +190,7 @@ fn body() {
         let _ = h.join();
     }
     let (result, frames) = match &res {
-        Ok(stream) => (Ok(stream_bytes(stream)), stream.frame_count()),
+        Ok(stream) => (stream_bytes(stream), stream.frame_count()),
         Err(e) => (Err(err_info(e)), 0),
     };
     drop(res);
